@@ -27,6 +27,7 @@
 #include <amgcl/solver/preonly.hpp>
 #include <amgcl/solver/skyline_lu.hpp>
 #include <fstream>
+#include <limits>
 
 using vr::crsd;
 typedef amgcl::backend::builtin<double> B;
@@ -55,8 +56,12 @@ static problem make_problem(vr::rng &g) {
     return p;
 }
 
+static bool g_relax_coarse = false;     // build the next preconditioner with direct_coarse = false
+template <class P> static auto relaxcoarse(P &q, int) -> decltype((void)q.direct_coarse) { q.direct_coarse = !g_relax_coarse; }
+template <class P> static void relaxcoarse(P &, long) {}
+
 // multi-level hierarchies even on these small problems
-template <class P> static auto pprm(int) -> decltype((void)typename P::params().coarse_enough, typename P::params()) { typename P::params q; q.coarse_enough = 8; return q; }
+template <class P> static auto pprm(int) -> decltype((void)typename P::params().coarse_enough, typename P::params()) { typename P::params q; q.coarse_enough = 8; relaxcoarse(q, 0); return q; }
 template <class P> static typename P::params pprm(long) { return typename P::params(); }
 
 struct outcome { vec x; size_t it = 0; double res = 0; bool threw = false; };
@@ -69,6 +74,16 @@ template <class P> struct throwing {
     const P &p; mutable int left; throwing(const P &p, int k) : p(p), left(k) {}
     typedef typename P::backend_type backend_type; typedef typename P::matrix matrix;
     template <class V1, class V2> void apply(const V1 &r, V2 &&x) const { if (--left <= 0) throw std::runtime_error("verif: inner failure"); p.apply(r, x); }
+    const matrix& system_matrix() const { return p.system_matrix(); }
+    std::shared_ptr<matrix> system_matrix_ptr() const { return p.system_matrix_ptr(); }
+};
+
+// preconditioner wrapper whose k-th apply returns a vector with an Inf entry (a failure inside the
+// iteration that does not throw)
+template <class P> struct poisoning {
+    const P &p; mutable int left; poisoning(const P &p, int k) : p(p), left(k) {}
+    typedef typename P::backend_type backend_type; typedef typename P::matrix matrix;
+    template <class V1, class V2> void apply(const V1 &r, V2 &&x) const { p.apply(r, x); if (--left == 0) x[x.size() / 2] = std::numeric_limits<double>::infinity(); }
     const matrix& system_matrix() const { return p.system_matrix(); }
     std::shared_ptr<matrix> system_matrix_ptr() const { return p.system_matrix_ptr(); }
 };
@@ -93,6 +108,8 @@ struct krylov : object {
             else if (kind == "nan_rhs") r = Sv(*p.A, P, p.fnan, X);
             else if (kind == "diverge") r = Sv(*p.Abad, P, p.f2, X);
             else if (kind == "throw_inside") { throwing<Precond> T(P, 2); r = Sv(*p.A, T, p.f2, X); }
+            else if (kind == "throw_late") { throwing<Precond> T(P, 9); r = Sv(*p.A, T, p.f2, X); }
+            else if (kind == "poison_inside") { poisoning<Precond> T(P, 2); r = Sv(*p.A, T, p.f2, X); }
             o.it = std::get<0>(r); o.res = std::get<1>(r);
         } catch (const std::exception &) { o.threw = true; }
         o.x = X; return o;
@@ -104,7 +121,7 @@ struct precond_only : object {      // amg / as_preconditioner: apply()
     bool has_tol() const override { return false; }
     outcome call(const std::string &kind, const problem &p, vec *xbuf = 0) override {
         outcome o; vec own; vec &X = xbuf ? *xbuf : own; X.assign(p.n, 7.25);
-        const vec &f = kind == "solve" || kind == "converged_guess" || kind == "throw_inside" ? p.f1 : kind == "zero_rhs" ? p.zero : kind == "nan_rhs" ? p.fnan : p.f2;
+        const vec &f = kind == "solve" || kind == "converged_guess" || kind == "throw_inside" || kind == "throw_late" ? p.f1 : kind == "zero_rhs" ? p.zero : kind == "nan_rhs" || kind == "poison_inside" ? p.fnan : p.f2;
         try { P.apply(f, X); } catch (const std::exception &) { o.threw = true; }
         o.x = X; return o;
     }
@@ -114,7 +131,7 @@ struct skyline : object {
     bool has_tol() const override { return false; }
     outcome call(const std::string &kind, const problem &p, vec *xbuf = 0) override {
         outcome o; vec own; vec &X = xbuf ? *xbuf : own; X.assign(p.n, -3.5);
-        const vec &f = kind == "solve" || kind == "converged_guess" || kind == "throw_inside" ? p.f1 : kind == "zero_rhs" ? p.zero : kind == "nan_rhs" ? p.fnan : p.f2;
+        const vec &f = kind == "solve" || kind == "converged_guess" || kind == "throw_inside" || kind == "throw_late" ? p.f1 : kind == "zero_rhs" ? p.zero : kind == "nan_rhs" || kind == "poison_inside" ? p.fnan : p.f2;
         lu(f, X); o.x = X; return o;
     }
 };
@@ -125,12 +142,12 @@ struct bundled : object {           // make_solver: operator()(rhs, x) and opera
         outcome o; vec own; vec &X = xbuf ? *xbuf : own; X.assign(p.n, 0.0);
         try {
             std::tuple<size_t, double> r;
-            if (kind == "solve" || kind == "throw_inside") r = ms(p.f1, X);
+            if (kind == "solve" || kind == "throw_inside" || kind == "throw_late") r = ms(p.f1, X);
             else if (kind == "solve_guess") { X = p.guess; r = ms(p.f2, X); }
             else if (kind == "solve_mtx") r = ms(*p.A2, p.f1, X);
             else if (kind == "zero_rhs") { X = p.guess; r = ms(p.zero, X); }
             else if (kind == "converged_guess") { X = p.xstar; r = ms(p.f1, X); }
-            else if (kind == "nan_rhs") r = ms(p.fnan, X);
+            else if (kind == "nan_rhs" || kind == "poison_inside") r = ms(p.fnan, X);
             else if (kind == "diverge") r = ms(*p.Abad, p.f2, X);
             o.it = std::get<0>(r); o.res = std::get<1>(r);
         } catch (const std::exception &) { o.threw = true; }
@@ -157,6 +174,8 @@ static std::vector<std::pair<std::string, factory>> kinds() {
     v.push_back({"amg-sa-spai0", [](const problem &p) { return std::unique_ptr<object>(new precond_only<AMG1>(p)); }});
     v.push_back({"amg-rs-ilu0", [](const problem &p) { return std::unique_ptr<object>(new precond_only<AMG2>(p)); }});
     v.push_back({"as_preconditioner-gauss_seidel", [](const problem &p) { return std::unique_ptr<object>(new precond_only<amgcl::relaxation::as_preconditioner<B, amgcl::relaxation::gauss_seidel>>(p)); }});
+    v.push_back({"amg-sa-spai0-relaxed-coarse", [](const problem &p) { g_relax_coarse = true; std::unique_ptr<object> o(new precond_only<AMG1>(p)); g_relax_coarse = false; return o; }});
+    { bicgstab<B>::params sp; v.push_back({"bicgstab-relaxed-coarse", [sp](const problem &p) { g_relax_coarse = true; std::unique_ptr<object> o(new krylov<bicgstab<B>, AMG1>(p, sp, true)); g_relax_coarse = false; return o; }}); }
     v.push_back({"skyline_lu", [](const problem &p) { return std::unique_ptr<object>(new skyline(p)); }});
     { typedef amgcl::make_solver<AMG1, gmres<B>> MS; MS::params prm; prm.solver.M = 5; prm.precond.coarse_enough = 8;
       v.push_back({"make_solver-amg-gmres", [prm](const problem &p) { return std::unique_ptr<object>(new bundled<MS>(p, prm)); }}); }
@@ -208,7 +227,6 @@ int main(int argc, char **argv) {
                 S.on = true; auto obj = k.second(p); S.on = false;
                 vec xbuf(p.n, 0.0);
                 for (auto &c : h) {
-                    if (c == "throw_inside") continue;        // the wrapper is not part of the object
                     { vr::obj o; o.str("e", "begin").str("call", c); int xi[1] = {S.id(amgcl::verif::id(xbuf))}; o.ints("ins", xi, xi + 1).ints("clob", xi, xi + 1); vr::emit(o.done()); }
                     S.on = true; obj->call(c, p, &xbuf); S.on = false;
                     { vr::obj o; o.str("e", "end"); vr::emit(o.done()); }
